@@ -92,7 +92,12 @@ func workerRules(c *Ctx) {
 				q.add("PATH", "fresh "+f+" is published before the instance starts", okf, "store of a new channel dominates the go statements", sts...)
 			}
 			// do gets the function passed to Do
-			q.add("PROV", "the instance runs the function passed to this Do", usesValue(P, callArg(goDo, 1), q.fn.Params[1]), "go x.do(fn)", goDo)
+			runsFn := usesValue(P, callArg(goDo, 1), q.fn.Params[1])
+			if mc, isMC := an.CallCommonOf(goDo).Value.(*ssa.MakeClosure); isMC && !runsFn {
+				// the instance is a literal of Do: it calls Do's own fn
+				runsFn = len(dynCallsOfParam(c, mc.Fn.(*ssa.Function), q.fn.Params[1])) == 1
+			}
+			q.add("PROV", "the instance runs the function passed to this Do", runsFn, "go x.do(fn)", goDo)
 		}
 		// holder registration: wg.Add(1) then return wg.Done of the same wg, after ensuring wg != nil
 		adds := P.CallsTo(q.fn, "(*sync.WaitGroup).Add")
@@ -129,6 +134,18 @@ func workerRules(c *Ctx) {
 				if okr {
 					mc, isMC := vs[0].(*ssa.MakeClosure)
 					okr = isMC && strings.Contains(mc.Fn.(*ssa.Function).String(), "WaitGroup).Done") && len(mc.Bindings) == 1 && isCurrentWG(mc.Bindings[0])
+					if isMC && !okr {
+						// a literal that does nothing but wg.Done() on the captured current wait group
+						lf := mc.Fn.(*ssa.Function)
+						dones := P.CallsTo(lf, "(*sync.WaitGroup).Done")
+						others := an.AllInstrs(lf, func(in ssa.Instruction) bool {
+							cc := an.CallCommonOf(in)
+							return cc != nil && P.CalleeName(cc) != "(*sync.WaitGroup).Done"
+						})
+						if len(dones) == 1 && len(others) == 0 && !P.InCycle(dones[0]) && len(lf.Params) == 0 {
+							okr = isCurrentWG(callArg(dones[0], 0))
+						}
+					}
 				}
 				q.add("PROV", "the done function releases exactly that registration", okr && P.Before(q.fn, an.Is(a), r), "returns x.wg.Done after x.wg.Add(1)", r)
 			}
@@ -185,7 +202,17 @@ func workerRules(c *Ctx) {
 		}
 	}
 	if q := c.F("(*Worker).do"); q.ok() {
-		calls := dynCallsOfParam(c, q.fn, q.fn.Params[1])
+		// the function to run: do's parameter, or - when the instance is a closure of Do - Do's
+		var fnPrm *ssa.Parameter
+		if len(q.fn.Params) >= 2 {
+			fnPrm = q.fn.Params[1]
+		} else if par := q.fn.Parent(); par != nil && len(par.Params) >= 2 {
+			fnPrm = par.Params[1]
+		}
+		var calls []ssa.Instruction
+		if fnPrm != nil {
+			calls = dynCallsOfParam(c, q.fn, fnPrm)
+		}
 		closes := P.CallsTo(q.fn, "builtin:close")
 		if q.need(calls, "PATH", "fn(stop)") && q.need(closes, "PATH", "close(x.done)") {
 			q.add("PROV", "the function receives this instance's stop channel", an.IsLoadOfField(callArg(calls[0], 0), "Worker.stop"), "fn(x.stop)", calls[0])
